@@ -22,6 +22,8 @@ MUTATORS = {"append", "extend", "update", "pop", "remove", "clear", "sort", "rev
 FRESH_EXT = {"builtins.dict", "builtins.list", "builtins.set", "builtins.tuple", "builtins.bytes", "builtins.str",
              "builtins.int", "builtins.sorted", "copy.deepcopy", "copy.copy", "collections.OrderedDict", "builtins.bytearray",
              "builtins.frozenset", "json.loads", "json.dumps"}
+SHALLOW_EXT = {"builtins.dict", "builtins.list", "builtins.tuple", "builtins.set", "builtins.frozenset", "copy.copy", "collections.OrderedDict", "builtins.sorted",
+               "builtins.reversed"}
 FRESH_METHODS = {"copy", "split", "encode", "decode", "join", "keys", "values", "items", "digest", "format", "strip", "rstrip",
                  "lstrip", "replace", "to_bytes", "hex", "lower", "upper"}
 
@@ -219,6 +221,11 @@ class Effects:
         func = e.func
         meth = func.attr if isinstance(func, ast.Attribute) else None
         if not site.callees:
+            # shallow copies: the copy itself is a new object, what it *contains* is shared with the original
+            if via and (meth == "copy" and isinstance(func, ast.Attribute) and not e.args):
+                return self.roots(fn, func.value, depth + 1, via, seen)
+            if via and any(x in SHALLOW_EXT for x in site.ext) and len(e.args) == 1 and not e.keywords:
+                return self.roots(fn, e.args[0], depth + 1, via, seen)
             if any(x in FRESH_EXT for x in site.ext) or meth in FRESH_METHODS:
                 return [Root("fresh", (site.ext or ["?"])[0], (), via)]
             if meth in ("get", "pop", "setdefault", "__getitem__") and isinstance(func, ast.Attribute):
